@@ -31,10 +31,14 @@ from harness.lib import cb, cl, cn, cs, cz
 PROP = "C16"
 IMPORTS = "Base ForLoop"
 RULE = ("index-map cases: dicts of 1-5 keys with lengths 0-4 / non-iterables, nested and zipped key tuples "
-        "(None, empty, overlapping, unknown keys); node cases: for_node over 6 toy body classes (1-4 inputs), "
+        "(None, empty, overlapping, unknown keys); node cases: for_node over 9 toy body classes (1-4 inputs, "
+        "one- and multi-character labels, two definitions of one class name), looped fields spelled as tuples or "
+        "bare strings, "
         "every iterate/zip/broadcast split, lengths 0-4 incl. unequal zips, 1-4 runs with changed lengths, both "
         "output forms, column maps (incl. clashing ones), use_cache on/off, local / thread pool / ordered "
-        "completion; shortcut cases: instance.iter/zip. Non-trivial = at least one run returns a table with "
+        "completion; shortcut cases: instance.iter/zip; session cases: 2-3 for-nodes made "
+        "one after the other in one process over the same body name / looped fields / output form that differ in "
+        "column map, cache flag, body definition or spelling, each checked against its own configuration. Non-trivial = at least one run returns a table with "
         ">=2 rows or the helper returns >=2 maps; distinct = distinct case JSON")
 TRUSTED = ["harness OrderedPool (subclass of concurrent.futures.ThreadPoolExecutor) completes the futures it is "
            "given in the prescribed order from one scheduler thread",
@@ -94,7 +98,34 @@ def T5(x=1, y=2, z=3):
     return x * 100 + y * 10 + z
 
 
-BODIES = [T0, T1, T2, T3, T4, T5]
+def _make_scale(k):
+    """two definitions of a node class called `Scale` (what re-running a notebook cell after an edit gives);
+    input labels of more than one character"""
+    if k == 2:
+        @as_function_node("y")
+        def Scale(xs, factor=1):
+            _note(xs, factor)
+            return xs * 2 * factor
+    else:
+        @as_function_node("y")
+        def Scale(xs, factor=1):
+            _note(xs, factor)
+            return xs * 3 * factor
+    return Scale
+
+
+T6 = _make_scale(2)
+T7 = _make_scale(3)
+
+
+@as_function_node("u", "w")
+def Pair(xs, ys, val=1):
+    _note(xs, ys, val)
+    return xs + 10 * ys + 100 * val, xs * ys
+
+
+BODIES = [T0, T1, T2, T3, T4, T5, T6, T7, Pair]
+BODY_NAMES = ["T0", "T1", "T2", "T3", "T4", "T5", "Scale", "Scale", "Pair"]
 # (input label, default | None), output labels, python reference of the node function
 SIG = [
     ([("a", None)], ["y"], lambda a: [2 * a + 1]),
@@ -104,6 +135,9 @@ SIG = [
      lambda a, b, c, d: [a + 10 * b + 100 * c + 1000 * d, a - d]),
     ([("a", 4), ("b", 6)], ["a", "q"], lambda a, b: [a + b, a * b + 1]),
     ([("x", 1), ("y", 2), ("z", 3)], ["w"], lambda x, y, z: [x * 100 + y * 10 + z]),
+    ([("xs", None), ("factor", 1)], ["y"], lambda xs, factor: [xs * 2 * factor]),
+    ([("xs", None), ("factor", 1)], ["y"], lambda xs, factor: [xs * 3 * factor]),
+    ([("xs", None), ("ys", None), ("val", 1)], ["u", "w"], lambda xs, ys, val: [xs + 10 * ys + 100 * val, xs * ys]),
 ]
 
 
@@ -247,11 +281,17 @@ def run_impl(case):
     LOG.clear()
     JITTER[0] = case.get("jitter", 0) if case.get("exec") == "pool" else 0
     ex = _make_executor(case)
+    # every case starts from an empty class registry, so that what a case shows does not depend on the cases run
+    # before it in this process (a replay reproduces it); sessions build up their own history
+    from pyiron_workflow.nodes.for_loop import for_node_factory
+    for_node_factory.clear()
     cwd = os.getcwd()
     os.chdir(_scratch())       # a failing root node drops <label>/recovery.pckl into the working directory
     try:
         if case["kind"] == "shortcut":
             return _run_shortcut(case, ex)
+        if case["kind"] == "session":
+            return [_run_node(sub, ex, with_name=True) for sub in case["nodes"]]
         return _run_node(case, ex)
     finally:
         os.chdir(cwd)
@@ -288,20 +328,33 @@ def _colmap(case):
     return {a: b for a, b in case["colmap"]} if case["colmap"] else None
 
 
-def _run_node(case, ex):
+def _bare(case, field):
+    """is iter_on / zip_on spelled as a bare string (possible for a single looped input)?"""
+    if len(case[field]) != 1:
+        return False
+    return bool(case.get("bare_str")) or field in (case.get("bare") or [])
+
+
+def _run_node(case, ex, with_name=False):
     from pyiron_workflow.nodes.for_loop import for_node
     body = BODIES[case["body"]]
     kw = dict(iter_on=tuple(case["iter"]), zip_on=tuple(case["zip"]), output_as_dataframe=case["df"],
               output_column_map=_colmap(case), use_cache=case["cache"])
-    if case.get("bare_str"):
-        # a single looped input may be named by a bare string instead of a 1-tuple
-        for k in ("iter_on", "zip_on"):
-            if len(kw[k]) == 1:
-                kw[k] = kw[k][0]
+    # a single looped input may be named by a bare string instead of a 1-tuple
+    if _bare(case, "iter"):
+        kw["iter_on"] = kw["iter_on"][0]
+    if _bare(case, "zip"):
+        kw["zip_on"] = kw["zip_on"][0]
     try:
         node = body.for_node(**kw) if case.get("entry") == "cls" else for_node(body, **kw)
     except Exception as e:   # noqa: BLE001
-        return [_exc_obs(e)]
+        return ["", [_exc_obs(e)]] if with_name else [_exc_obs(e)]
+    if with_name:
+        return [type(node).__name__, _run_steps(case, node, ex)]
+    return _run_steps(case, node, ex)
+
+
+def _run_steps(case, node, ex):
     obs = [["created"]]
     node.recovery = None          # no recovery file for the failing runs of the scenarios
     if ex is not None:
@@ -363,9 +416,27 @@ def model_term(case):
         loops = cl(f"({cs(k)}, {cl(cz(x) for x in v)})" for k, v in case["loops"])
         cm = cl(f"({cs(a)}, {cs(b)})" for a, b in (case["colmap"] or []))
         return f"shortcut (toy {cn(case['body'])}) {cb(case['style'] == 'zip')} {held} {loops} {cm} {_order(case)}"
-    steps = cl("(" + cl(f"({cs(k)}, {c_ival(v)})" for k, v in st["set"]) + ", " + _order(case) + ")"
-               for st in case["steps"])
-    return f"scenario {c_cfg(case)} {steps}"
+    if case["kind"] == "session":
+        return "session " + cl(f"({c_request(sub)}, {c_steps(sub)})" for sub in case["nodes"])
+    return f"scenario {c_cfg(case)} {c_steps(case)}"
+
+
+def c_steps(case):
+    return cl("(" + cl(f"({cs(k)}, {c_ival(v)})" for k, v in st["set"]) + ", " + _order(case) + ")"
+              for st in case["steps"])
+
+
+def c_spelling(case, field):
+    if _bare(case, field):
+        return f"(SBare {cs(case[field][0])})"
+    return f"(STuple {cl(cs(k) for k in case[field])})"
+
+
+def c_request(case):
+    cm = cl(f"({cs(a)}, {cs(b)})" for a, b in (case["colmap"] or []))
+    return (f"{{| q_name := toy_name {cn(case['body'])}; q_body := toy {cn(case['body'])}; "
+            f"q_iter := {c_spelling(case, 'iter')}; q_zip := {c_spelling(case, 'zip')}; q_df := {cb(case['df'])}; "
+            f"q_map := {cm}; q_cache := {cb(case['cache'])} |}}")
 
 
 # ---------------------------------------------------------------------------------------------
@@ -592,6 +663,15 @@ def oracle(case, obs):
     case = _tolist(case)
     if case["kind"] == "maps":
         return _oracle_maps(case, obs)
+    if case["kind"] == "session":
+        # every for-node of the session against ITS OWN body, looped fields, output form, column map and cache
+        # flag -- whatever was made before it in the same process
+        for j, (sub, o) in enumerate(zip(case["nodes"], obs)):
+            v = _oracle_steps(sub, o[1])
+            if v:
+                sig, rest = v.split(":", 1)
+                return f"{sig}: node {j} of the session ({len(case['nodes'])} for-nodes made one after the other):{rest}"
+        return None
     return _oracle_steps(_as_layout(case), obs, shortcut=case["kind"] == "shortcut")
 
 
@@ -627,6 +707,13 @@ def known(case, obs, verdict):
             if nk and zk and (p == 0) != (z == 0):
                 return "C16-mixed-zero-length"
         return None
+    if case["kind"] == "session":
+        try:
+            j = int(verdict.split(": node ")[1].split(" ")[0])
+        except Exception:
+            return None
+        sub_verdict = verdict.split(":", 1)[0] + ":" + verdict.split("):", 1)[1]
+        return known(case["nodes"][j], obs[j][1], sub_verdict)
     case = _as_layout(case)
     if sig == "bad-layout-accepted" and _layout_problem(case) == "column-clash":
         return "C16-column-map-clash"
@@ -641,6 +728,8 @@ def known(case, obs, verdict):
 def nontrivial(case, obs):
     if case["kind"] == "maps":
         return obs[0] == "ok" and len(obs[1]) >= 2
+    if case["kind"] == "session":
+        return any(nontrivial(sub, o[1]) for sub, o in zip(case["nodes"], obs))
     runs = [obs] if case["kind"] == "shortcut" else obs[1:]
     for o in runs:
         if o[0] == "ok" and o[1] != ["notdata"] and o[1][1]:
@@ -780,11 +869,11 @@ def _max_rows(case):
 
 
 def _gen_node(rng, p_exec):
-    b = rng.choice([0, 1, 1, 2, 2, 3, 3, 4, 5])
+    b = rng.choice([0, 1, 1, 2, 2, 3, 3, 4, 5, 6, 7, 8, 8])
     it, zp, colmap = _gen_layout(rng, b)
     case = {"kind": "node", "body": b, "iter": it, "zip": zp, "df": rng.random() < 0.5, "colmap": colmap,
             "cache": rng.random() < 0.8, "entry": rng.choice(["for_node", "for_node", "cls"])}
-    if (len(it) == 1 or len(zp) == 1) and rng.random() < 0.3:
+    if (len(it) == 1 or len(zp) == 1) and rng.random() < (0.6 if b >= 6 else 0.3):
         case["bare_str"] = True
     while True:
         case["steps"] = _gen_steps(rng, b, it, zp, rng.choice([1, 2, 2, 3, 3, 4]))
@@ -795,7 +884,7 @@ def _gen_node(rng, p_exec):
 
 
 def _gen_shortcut(rng, p_exec):
-    b = rng.choice([0, 1, 2, 3, 4, 5])
+    b = rng.choice([0, 1, 2, 3, 4, 5, 6, 7, 8])
     ins, outs, _ = SIG[b]
     labels = [l for l, _ in ins]
     loops = rng.sample(labels, rng.randint(1, len(labels)))
@@ -813,6 +902,42 @@ def _gen_shortcut(rng, p_exec):
     return case
 
 
+def _gen_session(rng):
+    """two or three for-nodes made one after the other in one process over a body of the same NAME, the same
+    looped fields (mostly spelled as bare strings, labels of more than one character) and the same output form,
+    differing in column map / cache flag / the definition of the body -- each is checked against its own
+    configuration (for_node's class registry must not hand an earlier node's class to a later one)"""
+    b = rng.choice([6, 6, 7, 8, 8, 8, 1, 3])
+    it, zp, colmap = _gen_layout(rng, b)
+    ins, outs, _ = SIG[b]
+    df = rng.random() < 0.5
+    bare = [f for f, ks in (("iter", it), ("zip", zp)) if len(ks) == 1 and rng.random() < 0.8]
+    base = {"kind": "node", "body": b, "iter": it, "zip": zp, "df": df, "colmap": colmap,
+            "cache": rng.random() < 0.7, "entry": rng.choice(["for_node", "for_node", "cls"]), "bare": bare,
+            "exec": None}
+    nodes = [base]
+    for j in range(rng.choice([1, 1, 2])):
+        sub = dict(nodes[-1])
+        for what in rng.sample(["colmap", "colmap", "cache", "body", "spell", "same"], rng.choice([1, 1, 2])):
+            if what == "colmap":
+                sub["colmap"] = [[o, rng.choice(["n%d_%s" % (j, o), o.upper() + str(j), "k" + o])]
+                                 for o in outs if o in it + zp or rng.random() < 0.8]
+            elif what == "cache":
+                sub["cache"] = not sub["cache"]
+            elif what == "body" and b in (6, 7):
+                sub["body"] = 13 - sub["body"]
+            elif what == "spell":
+                sub["bare"] = [f for f in ("iter", "zip") if len(sub[f]) == 1 and f not in sub["bare"]]
+        sub["entry"] = rng.choice(["for_node", "for_node", "cls"])
+        nodes.append(sub)
+    for sub in nodes:
+        while True:
+            sub["steps"] = _gen_steps(rng, sub["body"], it, zp, rng.choice([1, 1, 2]))
+            if _max_rows(sub) <= 16:
+                break
+    return {"kind": "session", "nodes": nodes}
+
+
 def generate(ctx):
     rng = ctx.rng
     cases, seen = [], set()
@@ -828,6 +953,8 @@ def generate(ctx):
         add(_gen_node(rng, 0.2 if ctx.quick else 0.4))
     for _ in range(ctx.n(40, 500)):
         add(_gen_shortcut(rng, 0.2 if ctx.quick else 0.4))
+    for _ in range(ctx.n(60, 700)):
+        add(_gen_session(rng))
     return cases
 
 
@@ -836,11 +963,12 @@ def search(ctx, results, mism):
     implementation side, around the layouts of the disagreeing cases (3x the quick budget)"""
     import random
     rng = random.Random(f"C16-search-{ctx.seed}")
-    kinds = {results[i][0]["kind"] for i in mism} or {"maps", "node", "shortcut"}
+    kinds = {results[i][0]["kind"] for i in mism} or {"maps", "node", "shortcut", "session"}
     out = []
     for _ in range(900):
         k = rng.choice(sorted(kinds))
-        out.append(_gen_maps(rng) if k == "maps" else _gen_node(rng, 0.3) if k == "node" else _gen_shortcut(rng, 0.3))
+        out.append(_gen_maps(rng) if k == "maps" else _gen_node(rng, 0.3) if k == "node"
+                   else _gen_session(rng) if k == "session" else _gen_shortcut(rng, 0.3))
     return out
 
 
@@ -857,6 +985,15 @@ def shrink_candidates(case):
             if case[f] and len(case[f]) > 1:
                 for i in range(len(case[f])):
                     yield {**case, f: case[f][:i] + case[f][i + 1:]}
+        return
+    if case["kind"] == "session":
+        ns = case["nodes"]
+        for j in range(len(ns)):
+            if len(ns) > 1:
+                yield {**case, "nodes": ns[:j] + ns[j + 1:]}
+        for j in range(len(ns)):
+            for sub in shrink_candidates(ns[j]):
+                yield {**case, "nodes": ns[:j] + [sub] + ns[j + 1:]}
         return
     if case["kind"] != "node":
         return
@@ -880,14 +1017,24 @@ def shrink_candidates(case):
 
 
 def distribution(results):
-    d = {"maps": 0, "node": 0, "shortcut": 0, "runs_ok": 0, "runs_exc": 0, "rerun_len_change": 0, "cache_hits": 0,
+    d = {"maps": 0, "node": 0, "shortcut": 0, "session": 0, "session_nodes": 0, "bare_spelling": 0, "runs_ok": 0, "runs_exc": 0, "rerun_len_change": 0, "cache_hits": 0,
          "exec_ordered": 0, "exec_pool": 0, "df": 0, "lists": 0, "with_colmap": 0, "rows_hist": {}, "exc": {}}
+    flat = []
     for c, enc, v, o in results:
         d[c["kind"]] += 1
+        if c["kind"] == "session":        # counted node by node
+            d["session_nodes"] += len(c["nodes"])
+            if isinstance(o, list) and len(o) == len(c["nodes"]):
+                flat += [(sub, None, v, so[1]) for sub, so in zip(c["nodes"], o) if isinstance(so, list) and len(so) == 2]
+        else:
+            flat.append((c, enc, v, o))
+    for c, enc, v, o in flat:
         if c["kind"] == "maps":
             if isinstance(o, list) and o and o[0] == "exc":
                 d["exc"][o[1]] = d["exc"].get(o[1], 0) + 1
             continue
+        if c["kind"] == "node" and (_bare(c, "iter") or _bare(c, "zip")):
+            d["bare_spelling"] += 1
         if c.get("exec") == "ordered":
             d["exec_ordered"] += 1
         elif c.get("exec") == "pool":
